@@ -205,16 +205,8 @@ func trunc(b []byte) string {
 
 // ---- history operations ----------------------------------------------------------------------------
 
-func short(f interface{ String() string }) string {
-	if true {
-		return f.String()
-	}
-	s := f.String()
-	if len(s) > 12 {
-		return s[:12]
-	}
-	return s
-}
+// short renders a felt for the trace (full value: the trace is what a replay is compared with).
+func short(f interface{ String() string }) string { return f.String() }
 
 func (w *World) Store() *chaingen.Block {
 	b := w.D.Next(w.M.Head())
